@@ -58,6 +58,9 @@ Resolve(x, fr, tr) ==
     LET base == ((x.h * 60 + x.m) * 60 + x.s) * 1000 fr2 == Frac(x.ff, fr) IN <<base + fr2[1], fr2[2]>>
   ELSE IF x.unit = "f" THEN Frac(x.vi, fr)
   ELSE IF x.unit = "t" THEN Frac(x.vi, tr)
+  \* "T": vi * 10^4 ticks, written out in full by the harness (33-bit and larger tick counts do not fit TLC's
+  \* integers); only generated for tickRate 10^7, where it is vi milliseconds exactly
+  ELSE IF x.unit = "T" THEN <<x.vi, 0>>
   ELSE \* h, m, s, ms with a decimal fraction: vi + vf / 10^vd units
     LET u == UnitMs(x.unit)
         fracMsNum == x.vf * u                     \* in 1/10^vd ms
@@ -81,6 +84,7 @@ Exprs(ms, fr, tr) ==
   \cup (IF fr > 0 /\ ms < 2000000 /\ (ms * fr) % 1000 = 0 THEN {EOff("f", (ms * fr) \div 1000, 0, 0)} ELSE {})
   \cup (IF tr > 0 /\ tr <= 90000 /\ ms < 20000 /\ (ms * tr) % 1000 = 0 THEN {EOff("t", (ms * tr) \div 1000, 0, 0)} ELSE {})
   \cup (IF tr = 10000000 /\ ms < 200000 THEN {EOff("t", ms * 10000, 0, 0)} ELSE {})
+  \cup (IF tr = 10000000 /\ ms > 0 THEN {EOff("T", ms, 0, 0)} ELSE {})
 
 ---------------------------------------------------------------------------
 (* content of a paragraph *)
